@@ -632,18 +632,22 @@ where
                             entry: dir_entry,
                             dirty: false,
                         };
-                        match &mut data.open_volumes[volume_idx].volume_type {
-                            VolumeType::Fat(fat) => fat.truncate_cluster_chain(
-                                &mut data.block_cache,
-                                file.entry.cluster,
-                            )?,
-                        };
+                        // Record the new length before releasing the clusters:
+                        // if we fail in between, the file is empty and still owns
+                        // (too many) clusters, rather than being longer than its
+                        // cluster chain.
                         file.update_length(0);
                         match &data.open_volumes[volume_idx].volume_type {
                             VolumeType::Fat(fat) => {
                                 file.entry.mtime = self.time_source.get_timestamp();
                                 fat.write_entry_to_disk(&mut data.block_cache, &file.entry)?;
                             }
+                        };
+                        match &mut data.open_volumes[volume_idx].volume_type {
+                            VolumeType::Fat(fat) => fat.truncate_cluster_chain(
+                                &mut data.block_cache,
+                                file.entry.cluster,
+                            )?,
                         };
 
                         file
